@@ -46,27 +46,30 @@ structure VSt (α : Type) where
   tmp : List (Int × List α)
   overflow : Int
 
-/-- Body of `for currentValue, solver := range dp`. -/
+/-- Body of `for currentValue, solver := range dp`:
+```go
+newValue := currentValue + value
+if newValue > maxValue {
+    if !allowOverOnce || (overflow > 0 && newValue > overflow) { continue }
+    overflow = newValue
+}
+oldSolver, ok := dp[newValue]
+if ok && breaker == nil { continue }
+newSolver := …solver + item…
+if ok && !breaker(oldSolver, newSolver) { tmpPool.Put(newSolver); continue }
+dpTmp[newValue] = newSolver
+``` -/
 def vStep1 (item : α) (value : Int) (st : VSt α) (e : Int × List α) : VSt α :=
   let newValue := e.1 + value
-  -- overflow bookkeeping; `none` = `continue`
-  let st1? : Option (VSt α) :=
-    if newValue > maxV then
-      if !allowOver || (decide (st.overflow > 0) && decide (newValue > st.overflow)) then none
-      else some { st with overflow := newValue }
-    else some st
-  match st1? with
-  | none => st
-  | some st1 =>
+  if newValue > maxV ∧ (allowOver = false ∨ (st.overflow > 0 ∧ newValue > st.overflow)) then st
+  else
+    let st1 : VSt α := if newValue > maxV then { st with overflow := newValue } else st
     match alLookup newValue st1.dp, br with
     | some _, none => st1
-    | old?, _ =>
+    | some old, some b =>
       let newSolver := e.2 ++ [item]
-      match old?, br with
-      | some old, some b =>
-        if !b old newSolver then st1
-        else { st1 with tmp := alInsert newValue newSolver st1.tmp }
-      | _, _ => { st1 with tmp := alInsert newValue newSolver st1.tmp }
+      if b old newSolver then { st1 with tmp := alInsert newValue newSolver st1.tmp } else st1
+    | none, _ => { st1 with tmp := alInsert newValue (e.2 ++ [item]) st1.tmp }
 
 /-- Body of `for v, solver := range dpTmp`. -/
 def vStep2 (st : VSt α) (e : Int × List α) : VSt α :=
@@ -154,42 +157,42 @@ def poolGet (st : HSt α) (initCap : Nat) : HSt α × Slice :=
 /-- `tmpPool.Put(slice)`. -/
 def poolPut (st : HSt α) (s : Slice) : HSt α := { st with pool := st.pool ++ [s] }
 
-/-- Body of `for currentValue, solver := range dp` (heap level); `none` = stuck. -/
-def hStep1 (item : α) (value : Int) (st : HSt α) (e : Int × Slice) : Option (HSt α) :=
-  let newValue := e.1 + value
-  let st1? : Option (HSt α) :=
-    if newValue > maxV then
-      if !allowOver || (decide (st.overflow > 0) && decide (newValue > st.overflow)) then none
-      else some { st with overflow := newValue }
-    else some st
-  match st1? with
-  | none => some st
-  | some st1 =>
-    match alLookup newValue st1.dp, br with
-    | some _, none => some st1
-    | old?, _ =>
-      -- newSolver := tmpPool.Get(len(solver)+1)
-      let (st2, ns0) := poolGet st1 (e.2.len + 1)
-      -- newSolver = append(newSolver, solver...)
-      match readS st2.heap e.2 with
-      | none => none
-      | some solverVal =>
-      match appendS grow st2.heap ns0 solverVal with
-      | none => none
-      | some (h3, ns1) =>
-      -- newSolver = append(newSolver, item)
+/-- `newSolver := tmpPool.Get(len(solver)+1); newSolver = append(newSolver, solver...);
+newSolver = append(newSolver, item)`; `none` = stuck (dangling slice). -/
+def buildNew (item : α) (st : HSt α) (solver : Slice) : Option (HSt α × Slice) :=
+  let (st2, ns0) := poolGet st (solver.len + 1)
+  match readS st2.heap solver with
+  | none => none
+  | some solverVal =>
+    match appendS grow st2.heap ns0 solverVal with
+    | none => none
+    | some (h3, ns1) =>
       match appendS grow h3 ns1 [item] with
       | none => none
-      | some (h4, ns2) =>
-      let st4 : HSt α := { st2 with heap := h4 }
-      match old?, br with
-      | some old, some b =>
-        match readS h4 old, readS h4 ns2 with
+      | some (h4, ns2) => some ({ st2 with heap := h4 }, ns2)
+
+/-- Body of `for currentValue, solver := range dp` (heap level, same control flow as
+`vStep1`); `none` = stuck. -/
+def hStep1 (item : α) (value : Int) (st : HSt α) (e : Int × Slice) : Option (HSt α) :=
+  let newValue := e.1 + value
+  if newValue > maxV ∧ (allowOver = false ∨ (st.overflow > 0 ∧ newValue > st.overflow)) then some st
+  else
+    let st1 : HSt α := if newValue > maxV then { st with overflow := newValue } else st
+    match alLookup newValue st1.dp, br with
+    | some _, none => some st1
+    | some old, some b =>
+      match buildNew grow item st1 e.2 with
+      | none => none
+      | some (st4, ns) =>
+        match readS st4.heap old, readS st4.heap ns with
         | some oldVal, some newVal =>
-          if !b oldVal newVal then some (poolPut st4 ns2)
-          else some { st4 with tmp := alInsert newValue ns2 st4.tmp }
+          if b oldVal newVal then some { st4 with tmp := alInsert newValue ns st4.tmp }
+          else some (poolPut st4 ns)
         | _, _ => none
-      | _, _ => some { st4 with tmp := alInsert newValue ns2 st4.tmp }
+    | none, _ =>
+      match buildNew grow item st1 e.2 with
+      | none => none
+      | some (st4, ns) => some { st4 with tmp := alInsert newValue ns st4.tmp }
 
 /-- Body of `for v, solver := range dpTmp`. -/
 def hStep2 (st : HSt α) (e : Int × Slice) : HSt α :=
